@@ -19,6 +19,7 @@ import (
 	"testing"
 
 	"cuelabs.dev/go/oci/ociregistry"
+	"cuelabs.dev/go/oci/ociregistry/ocifilter"
 	"cuelabs.dev/go/oci/ociregistry/ocimem"
 	"cuelabs.dev/go/oci/ociregistry/ociserver"
 	"github.com/opencontainers/go-digest"
@@ -46,6 +47,9 @@ type Script struct {
 	RotateIDs bool   `json:"rotate_ids,omitempty"`
 	LocMode   string `json:"loc_mode,omitempty"`
 
+	// BackendMode: "" the in-memory registry | "readonly" (every mutating call is refused as unsupported,
+	// with nil results) | "fail:<CODE>" (every call fails with that OCI error)
+	BackendMode string `json:"backend_mode,omitempty"`
 	// ReadFault > 0: every reader the backend hands out fails after delivering ReadFault-1 bytes
 	ReadFault int `json:"read_fault,omitempty"`
 
@@ -230,6 +234,18 @@ func run(s Script, v *vt.V) {
 	rot := &rotating{Interface: mem}
 	if s.RotateIDs {
 		inner = rot
+	}
+	switch {
+	case s.BackendMode == "readonly":
+		inner = ocifilter.ReadOnly(inner)
+	case strings.HasPrefix(s.BackendMode, "fail:"):
+		code := strings.TrimPrefix(s.BackendMode, "fail:")
+		inner = &ociregistry.Funcs{NewError: func(ctx context.Context, method, repo string) error {
+			return ociregistry.NewError("the backend says no", code, nil)
+		}}
+	}
+	if s.BackendMode != "" {
+		v.Class("backend-mode:%s", s.BackendMode)
 	}
 	brk := &breaking{Interface: inner, after: s.ReadFault - 1}
 	if s.ReadFault > 0 {
@@ -554,6 +570,9 @@ func genScript(t *rapid.T) Script {
 	s.NoSinglePost, s.NoReferrers = rapid.IntRange(0, 3).Draw(t, "noSinglePost") == 0, rapid.IntRange(0, 5).Draw(t, "noReferrers") == 0
 	s.MaxPage = rapid.SampledFrom([]int{0, 0, 1, 2, 1000}).Draw(t, "maxPage")
 	s.RotateIDs = rapid.IntRange(0, 3).Draw(t, "rotateIDs") == 0
+	if rapid.IntRange(0, 7).Draw(t, "backendMode") == 0 {
+		s.BackendMode = rapid.SampledFrom([]string{"readonly", "readonly", "fail:DENIED", "fail:TOOMANYREQUESTS", "fail:UNSUPPORTED", "fail:NAME_UNKNOWN", "fail:CUSTOM_CODE"}).Draw(t, "backendModeKind")
+	}
 	if rapid.IntRange(0, 7).Draw(t, "readFault") == 0 {
 		s.ReadFault = rapid.IntRange(1, 20).Draw(t, "readFaultAt")
 	}
@@ -703,7 +722,7 @@ func genScript(t *rapid.T) Script {
 var prop = &vt.Prop[Script]{
 	ID:   "C06",
 	Name: "ServeAnyRequest",
-	Rule: "requests built by hand (so that unparseable paths are reachable) and served in-process by ociserver over a recording, close-tracking wrapper of a pre-populated ocimem (3 repositories incl. a/blobs/uploads, blobs, image + index manifests with subject, tags, an upload in progress; an eighth of the backends hand out readers that fail after 0-19 bytes: the response is then an error document or exactly the bytes delivered, never content with something appended) under every Options combination, a quarter of the time with a backend that rotates upload ids: method in {GET,HEAD,PUT,POST,PATCH,DELETE,OPTIONS,'',lower case,garbage}; path = one of 8 endpoint templates with slots from known / valid (routing words, 255-1000 byte names) / hostile names, digests, tags and upload ids (incl. ids whose base64 form needs the URL-safe alphabet), then mutated (segment dropped / duplicated / emptied, trailing slash, double slash, other prefix); query n,last,digest,mount,from each absent / empty / valid / malformed / repeated, raw malformed queries; Range, Content-Range, Content-Type headers from valid and boundary values (0-0, 5-4, 1-0, MaxInt64, negative, non-numeric, lone '-' and ',' forms, generated strings over the range alphabet); bodies (empty, 1 byte, blob, valid image / index manifests, truncated JSON) with matching, unknown (-1) and mismatching Content-Length; oracle = no panic; status >= 400 => OCI JSON error document whose status equals the specification's for its code; 2xx => the endpoint's mandated headers (Location - for uploads naming the id the backend's writer reports now -, Docker-Content-Digest, Range, Content-Range consistent with the body, Content-Length == body); no backend call with a repository, tag or digest that an independent reference reading of the grammars rejects; every reader and writer obtained from the backend closed; non-trivial = the request reached a handler or was rejected for a reason other than a foreign path; distinct = (method, template, mutation, status, header set, query)",
+	Rule: "requests built by hand (so that unparseable paths are reachable) and served in-process by ociserver over a recording, close-tracking wrapper of a pre-populated ocimem (3 repositories incl. a/blobs/uploads, blobs, image + index manifests with subject, tags, an upload in progress; an eighth of the backends hand out readers that fail after 0-19 bytes: the response is then an error document or exactly the bytes delivered, never content with something appended; an eighth of the backends are read-only or fail every call with a fixed OCI error, handing back nil readers and writers) under every Options combination, a quarter of the time with a backend that rotates upload ids: method in {GET,HEAD,PUT,POST,PATCH,DELETE,OPTIONS,'',lower case,garbage}; path = one of 8 endpoint templates with slots from known / valid (routing words, 255-1000 byte names) / hostile names, digests, tags and upload ids (incl. ids whose base64 form needs the URL-safe alphabet), then mutated (segment dropped / duplicated / emptied, trailing slash, double slash, other prefix); query n,last,digest,mount,from each absent / empty / valid / malformed / repeated, raw malformed queries; Range, Content-Range, Content-Type headers from valid and boundary values (0-0, 5-4, 1-0, MaxInt64, negative, non-numeric, lone '-' and ',' forms, generated strings over the range alphabet); bodies (empty, 1 byte, blob, valid image / index manifests, truncated JSON) with matching, unknown (-1) and mismatching Content-Length; oracle = no panic; status >= 400 => OCI JSON error document whose status equals the specification's for its code; 2xx => the endpoint's mandated headers (Location - for uploads naming the id the backend's writer reports now -, Docker-Content-Digest, Range, Content-Range consistent with the body, Content-Length == body); no backend call with a repository, tag or digest that an independent reference reading of the grammars rejects; every reader and writer obtained from the backend closed; non-trivial = the request reached a handler or was rejected for a reason other than a foreign path; distinct = (method, template, mutation, status, header set, query)",
 	Gen:  genScript,
 	Run:  run,
 }
